@@ -326,6 +326,14 @@ def handle (toks : List String) : String :=
       let out := Direct.transform fwd corr xs.size (dr.getD 0 1.0) (fun i => xs.getD i 0.0)
       s!"ok 1 {xs.size} " ++ showFloats ((List.range xs.size).map out)
     | _, _, _, _ => "bad-op"
+  -- bordas dr <row…>   →  onion_bordas_transform(shift_grid=False) of one row
+  | "bordas" :: dr :: rest =>
+    match parseFloats [dr], parseFloats rest with
+    | some dr, some xs =>
+      if xs.size < 2 then "bad-op" else
+      let out := Bordas.transform xs.size (dr.getD 0 1.0) (fun i => xs.getD i 0.0)
+      s!"ok 1 {xs.size} " ++ showFloats ((List.range xs.size).map out)
+    | _, _ => "bad-op"
   -- mat name n   →  n×n entries of a model matrix
   | ["mat", name, n] =>
     match namedMatrix name, n.toNat? with
